@@ -2,7 +2,8 @@ package interp
 
 import (
 	"io"
-	"regexp"
+
+	"github.com/benhoyt/goawk/internal/ast"
 )
 
 // C07 — end-to-end schedule independence and losslessness: the real
@@ -51,12 +52,11 @@ func verifSame(a, b []string) bool {
 	return true
 }
 
+// an interpreter whose RS was set the way a program sets it (through the special-variable setter)
 func verifInterpRS(rs string) *interp {
-	p := &interp{recordSep: rs}
-	if len(rs) > 1 {
-		re := regexp.MustCompile(rs)
-		re.Longest()
-		p.recordSepRegex = re
+	p := &interp{recordSep: "\n", convertFormat: "%.6g"}
+	if err := p.setSpecial(ast.V_RS, str(rs)); err != nil {
+		panic("RS rejected: " + err.Error())
 	}
 	return p
 }
@@ -81,6 +81,7 @@ func VerifC07ScanNewline() { verifC07Chunks("\n", "RS=newline") }
 func VerifC07ScanBlank()   { verifC07Chunks("", "RS=\"\"") }
 func VerifC07ScanRegexPlus() { verifC07Chunks("X+", "RS=/X+/") }
 func VerifC07ScanRegexAlt()  { verifC07Chunks("b|abc", "RS=/b|abc/") }
+func VerifC07ScanRegexAltPlus() { verifC07Chunks("a|b+", "RS=/a|b+/") }
 
 func VerifC07ScanByte() {
 	sep := verifByte()
@@ -91,7 +92,7 @@ func VerifC07ScanByte() {
 // losslessness (single read): regex RS — records and RTs concatenated reproduce the input;
 // single byte — records joined by RS reproduce it up to one final RS; newline — lines with one CR dropped
 func VerifC07LosslessRegex() {
-	rs := []string{"X+", "b|abc"}[verifIntRange(0, 1)]
+	rs := []string{"X+", "b|abc", "a|b+"}[verifIntRange(0, 2)]
 	n := verifIntRange(0, verifBound(4, 6))
 	data := verifBytes(n)
 	k := verifIntRange(0, n)
